@@ -259,8 +259,17 @@ func EndpointRoles(p *core.Program, r *core.Report, rulePrefix string) {
 		s := t.String()
 		return strings.Contains(s, "[]k8s.io/api/networking/v1.NetworkPolicyPort") || strings.Contains(s, "[]sigs.k8s.io/network-policy-api/apis/v1alpha1.AdminNetworkPolicyPort")
 	}
-	// R-port: functions taking a rule's port list and a peer: the peer parameter is the destination
+	// R-port: functions taking a rule's port list and a peer: the peer the ports are resolved on is the destination.
+	// With one peer parameter that is the one; with several, it is the parameter handed on (together with a port list)
+	// to the port peer of a callee, or used to convert a named port. Other peer parameters (the other end of the rule,
+	// whatever it is called and wherever it stands) are the subject of R-peer below.
 	nPort := 0
+	type portFn struct {
+		fd    *core.FuncDecl
+		peers []*types.Var
+	}
+	var portFns []portFn
+	portPeer := map[*types.Func]map[*types.Var]bool{}
 	for _, fd := range a.funcs {
 		sig := fd.Obj.Type().(*types.Signature)
 		hasPorts := false
@@ -281,20 +290,80 @@ func EndpointRoles(p *core.Program, r *core.Report, rulePrefix string) {
 		if len(peers) == 0 {
 			continue
 		}
-		// the peer the ports are resolved on: the only peer parameter, or the one passed on to a port function / used for named ports;
-		// with two peer parameters (src, dst) the second is the destination by role inference
-		for _, pv := range peers {
-			role := a.roles[pv]
-			if len(peers) == 2 && pv == peers[0] {
-				// the other-end peer of an ingress rule: must be the source
-				nPort++
-				r.Check(role == RoleSrc || role == RoleNone, rulePrefix+"-role-port", fmt.Sprintf("%s: first peer parameter %s is the source", fd.Key(), pv.Name()), p.Pos(fd.Decl.Pos()),
-					"role inferred from all call sites: "+role.String(), "the parameter receives the "+role.String()+" at its call sites; the rule's peers must be matched against the source and its ports resolved on the destination")
+		portFns = append(portFns, portFn{fd, peers})
+		portPeer[fd.Obj] = map[*types.Var]bool{}
+		if len(peers) == 1 {
+			portPeer[fd.Obj][peers[0]] = true
+		}
+	}
+	for changed := true; changed; {
+		changed = false
+		for _, pf := range portFns {
+			if len(pf.peers) < 2 {
 				continue
 			}
+			info := pf.fd.Pkg.TypesInfo
+			ast.Inspect(pf.fd.Decl.Body, func(n ast.Node) bool {
+				call, ok := n.(*ast.CallExpr)
+				if !ok {
+					return true
+				}
+				fn := core.Callee(info, call)
+				if fn == nil {
+					return true
+				}
+				if pp, isPortFn := portPeer[fn]; isPortFn {
+					csig := fn.Type().(*types.Signature)
+					for i, arg := range call.Args {
+						if i >= csig.Params().Len() || !pp[csig.Params().At(i)] {
+							continue
+						}
+						if id, isId := ast.Unparen(arg).(*ast.Ident); isId {
+							if v, isV := info.ObjectOf(id).(*types.Var); isV && !portPeer[pf.fd.Obj][v] {
+								for _, pv := range pf.peers {
+									if pv == v {
+										portPeer[pf.fd.Obj][v] = true
+										changed = true
+									}
+								}
+							}
+						}
+					}
+				}
+				// named-port conversion on a peer: peer.ConvertPodNamedPort(..) / GetPeerPod().ConvertPodNamedPort
+				if strings.Contains(fn.Name(), "NamedPort") {
+					var roots []ast.Expr
+					if se, isSe := ast.Unparen(call.Fun).(*ast.SelectorExpr); isSe {
+						roots = append(roots, se.X)
+					}
+					roots = append(roots, call.Args...)
+					for _, e := range roots {
+						if root := core.RootIdent(e); root != nil {
+							if v, isV := info.ObjectOf(root).(*types.Var); isV && !portPeer[pf.fd.Obj][v] {
+								for _, pv := range pf.peers {
+									if pv == v {
+										portPeer[pf.fd.Obj][v] = true
+										changed = true
+									}
+								}
+							}
+						}
+					}
+				}
+				return true
+			})
+		}
+	}
+	for _, pf := range portFns {
+		fd := pf.fd
+		for _, pv := range pf.peers {
+			if !portPeer[fd.Obj][pv] {
+				continue
+			}
+			role := a.roles[pv]
 			nPort++
 			allowNone := role == RoleNone && calledWithNilOnly(p, fd, pv)
-			r.Check(role == RoleDst || allowNone, rulePrefix+"-role-port", fmt.Sprintf("%s: peer parameter %s (ports are resolved on it) is the destination", fd.Key(), pv.Name()), p.Pos(fd.Decl.Pos()),
+			r.Check(role == RoleDst || allowNone, rulePrefix+"-role-port", fmt.Sprintf("%s: peer parameter %s (ports are resolved on it) is the destination", fd.Key(), core.Stable(fd.Pkg.TypesInfo, paramIdent(fd, pv))), p.Pos(fd.Decl.Pos()),
 				"role inferred from all call sites: "+role.String(),
 				"the peer on which a rule's ports (named ports!) are resolved receives the "+role.String()+" at its call sites; ports always belong to the destination pod")
 		}
@@ -406,4 +475,16 @@ func calledWithNilOnly(p *core.Program, fd *core.FuncDecl, pv *types.Var) bool {
 		}
 	}
 	return true
+}
+
+// paramIdent returns the declaring identifier of parameter v of fd.
+func paramIdent(fd *core.FuncDecl, v *types.Var) ast.Node {
+	for _, fl := range fd.Decl.Type.Params.List {
+		for _, nm := range fl.Names {
+			if fd.Pkg.TypesInfo.Defs[nm] == types.Object(v) {
+				return nm
+			}
+		}
+	}
+	return fd.Decl.Name
 }
